@@ -22,9 +22,11 @@ import Driver.OpsLatToric2DCode
 import Driver.OpsLatToric3DCode
 import Driver.OpsLatXCubeCode
 import Driver.OpsMask
+import Driver.OpsMbp
 import Driver.OpsNoise
 import Driver.OpsSim
 import Driver.OpsSweep
+import Driver.OpsXCube
 open Panqec
 
 /-! Line protocol: one operation per input line, one output line per input line.
@@ -32,7 +34,7 @@ open Panqec
     (`none` = not my op); the first that answers wins. -/
 
 def handlers : List (List String → Option String) :=
-  [Drv.handleAnalysis, Drv.handleBatch, Drv.handleBits, Drv.handleCli, Drv.handleCode, Drv.handleDecoders, Drv.handleDeform, Drv.handleDist, Drv.handleGui, Drv.handleLatColor488Code, Drv.handleLatColor666PlanarCode, Drv.handleLatColor666ToricCode, Drv.handleLatHollowPlanar3DCode, Drv.handleLatPlanar2DCode, Drv.handleLatPlanar3DCode, Drv.handleLatRotatedPlanar2DCode, Drv.handleLatRotatedPlanar3DCode, Drv.handleLatRotatedToric3DCode, Drv.handleLatToric2DCode, Drv.handleLatToric3DCode, Drv.handleLatXCubeCode, Drv.handleMask, Drv.handleNoise, Drv.handleSim, Drv.handleSweep]
+  [Drv.handleAnalysis, Drv.handleBatch, Drv.handleBits, Drv.handleCli, Drv.handleCode, Drv.handleDecoders, Drv.handleDeform, Drv.handleDist, Drv.handleGui, Drv.handleLatColor488Code, Drv.handleLatColor666PlanarCode, Drv.handleLatColor666ToricCode, Drv.handleLatHollowPlanar3DCode, Drv.handleLatPlanar2DCode, Drv.handleLatPlanar3DCode, Drv.handleLatRotatedPlanar2DCode, Drv.handleLatRotatedPlanar3DCode, Drv.handleLatRotatedToric3DCode, Drv.handleLatToric2DCode, Drv.handleLatToric3DCode, Drv.handleLatXCubeCode, Drv.handleMask, Drv.handleMbp, Drv.handleNoise, Drv.handleSim, Drv.handleSweep, Drv.handleXCube]
 
 def handleToks (toks : List String) : String :=
   match handlers.findSome? (fun h => h toks) with
